@@ -1278,6 +1278,217 @@ fn check_entries_after(case: &ImageCase, ctx: &mut CaseCtx<'_>) -> Result<(), St
 }
 
 // ---------------------------------------------------------------------------------------
+// life cycles: append / sync / truncate / restart / crash / recover in generated order
+// ---------------------------------------------------------------------------------------
+
+#[derive(Clone, Debug, Serialize, Deserialize)]
+enum Step {
+    /// append these (payload length, stamp) entries through the current rotator
+    Append(Vec<(u16, u64)>),
+    /// WalRotator::sync
+    Sync,
+    /// truncate_before(T), T picked from {0, stamps seen so far, each -1 / +1} by this fraction
+    Truncate(u16),
+    /// process restart without data loss: a new WalRotator over the same store
+    Restart,
+    /// crash: bytes not covered by an fsync of their file are lost, then restart
+    Crash,
+}
+
+#[derive(Clone, Debug, Serialize, Deserialize)]
+struct LifeCase {
+    max_file_size: u32,
+    steps: Vec<Step>,
+}
+
+fn life_case() -> impl Strategy<Value = LifeCase> {
+    let step = prop_oneof![
+        5 => proptest::collection::vec((1u16..60, prop_oneof![8 => 0u64..8, 1 => 0u64..1000, 1 => Just(u64::MAX)]), 1..=5).prop_map(Step::Append),
+        1 => Just(Step::Sync),
+        3 => any::<u16>().prop_map(Step::Truncate),
+        3 => Just(Step::Restart),
+        1 => Just(Step::Crash),
+    ];
+    (
+        prop_oneof![3 => Just(17u32), 4 => 40u32..200, 2 => 200u32..600, 1 => Just(1u32 << 24)],
+        proptest::collection::vec(step, 3..=10),
+    )
+        .prop_map(|(max_file_size, steps)| LifeCase { max_file_size, steps })
+}
+
+struct RefEntry {
+    data: Vec<u8>,
+    stamp: u64,
+    /// offset in its file just behind this entry
+    end: usize,
+}
+
+fn check_life(c: &LifeCase, ctx: &mut CaseCtx<'_>) -> Result<(), String> {
+    let store = ImgStore::new();
+    let mfs = (c.max_file_size as usize).max(WAL_HEADER_SIZE + 1);
+    let mut rot = WalRotator::new(store.clone(), mfs).map_err(|e| e.to_string())?;
+    // the reference: per existing file (by sequence) what was appended to it and not lost
+    let mut files: BTreeMap<u64, Vec<RefEntry>> = BTreeMap::new();
+    // the file the current rotator is writing to (None right after a restart)
+    let mut active: Option<u64> = None;
+    let mut seen: BTreeSet<u64> = [0u64].into_iter().collect();
+    let mut counter = 0u32;
+    let mut history: Vec<String> = Vec::new();
+    let mut evals = 0u64;
+    let mut kinds: BTreeSet<&'static str> = BTreeSet::new();
+    let mut truncated_then_restarted_then_appended = 0u8;
+
+    let show_ref = |files: &BTreeMap<u64, Vec<RefEntry>>| -> String {
+        let v: Vec<String> = files
+            .iter()
+            .map(|(s, es)| format!("{}:{:?}", file_name(*s), es.iter().map(|e| e.stamp).collect::<Vec<_>>()))
+            .collect();
+        v.join(" ")
+    };
+    for (si, step) in c.steps.iter().enumerate() {
+        match step {
+            Step::Append(es) => {
+                kinds.insert("append");
+                for &(len, stamp) in es {
+                    counter += 1;
+                    let mut data = counter.to_le_bytes().to_vec();
+                    data.resize((len as usize).max(4), (counter % 251) as u8);
+                    let e = WalEntry {
+                        checksum: crc32(&data),
+                        data: data.clone(),
+                        timestamp: stamp,
+                    };
+                    let seq = rot.append(&e).map_err(|err| format!("step {}: append failed on a fault-free store: {}", si, err))?;
+                    seen.insert(stamp);
+                    if active != Some(seq) {
+                        // the rotator opened a new file
+                        if files.contains_key(&seq) {
+                            return Err(format!(
+                                "step {}: the rotator created {} although that file exists and holds entries with stamps {:?} (its content is replaced)\n  history: {}\n  files before: {}",
+                                si,
+                                file_name(seq),
+                                files[&seq].iter().map(|e| e.stamp).collect::<Vec<_>>(),
+                                history.join(" | "),
+                                show_ref(&files)
+                            ));
+                        }
+                        files.insert(seq, Vec::new());
+                        active = Some(seq);
+                        if truncated_then_restarted_then_appended == 2 {
+                            truncated_then_restarted_then_appended = 3;
+                        }
+                    }
+                    let f = files.get_mut(&seq).unwrap();
+                    let start = f.last().map(|e| e.end).unwrap_or(WAL_HEADER_SIZE);
+                    f.push(RefEntry {
+                        data,
+                        stamp,
+                        end: start + WAL_ENTRY_OVERHEAD + (len as usize).max(4),
+                    });
+                }
+                history.push(format!("append{:?}", es.iter().map(|e| e.1).collect::<Vec<_>>()));
+            }
+            Step::Sync => {
+                kinds.insert("sync");
+                rot.sync().map_err(|e| format!("step {}: sync failed: {}", si, e))?;
+                history.push("sync".into());
+            }
+            Step::Truncate(sel) => {
+                kinds.insert("truncate");
+                let mut cands: BTreeSet<u64> = BTreeSet::new();
+                for &x in &seen {
+                    cands.insert(x);
+                    cands.insert(x.saturating_sub(1));
+                    cands.insert(x.saturating_add(1));
+                }
+                let t = *cands.iter().nth(((*sel as usize) * cands.len()) >> 16).unwrap();
+                history.push(format!("truncate_before({})", t));
+                let before: BTreeSet<String> = store.names().into_iter().collect();
+                let deleted = catch(|| rot.truncate_before(t))
+                    .map_err(|p| format!("step {}: truncate_before({}) panicked: {}", si, t, p))?
+                    .map_err(|e| format!("step {}: truncate_before({}) failed: {}", si, t, e))?;
+                let after: BTreeSet<String> = store.names().into_iter().collect();
+                if before.len() - after.len() != deleted || !after.is_subset(&before) {
+                    return Err(format!("step {}: truncate_before({}) reported {} deleted files; files before {:?}, after {:?}", si, t, deleted, before, after));
+                }
+                if let Some(a) = active {
+                    if !after.contains(&file_name(a)) {
+                        return Err(format!("step {}: truncate_before({}) removed the active file {}\n  history: {}", si, t, file_name(a), history.join(" | ")));
+                    }
+                }
+                let gone: Vec<u64> = files.keys().copied().filter(|s| !after.contains(&file_name(*s))).collect();
+                for s in gone {
+                    if let Some(e) = files[&s].iter().find(|e| e.stamp > t) {
+                        return Err(format!(
+                            "step {}: truncate_before({}) deleted {} although it holds an entry with stamp {} > {}\n  history: {}",
+                            si,
+                            t,
+                            file_name(s),
+                            e.stamp,
+                            t,
+                            history.join(" | ")
+                        ));
+                    }
+                    files.remove(&s);
+                    if truncated_then_restarted_then_appended == 0 {
+                        truncated_then_restarted_then_appended = 1;
+                    }
+                }
+            }
+            Step::Restart | Step::Crash => {
+                if matches!(step, Step::Crash) {
+                    kinds.insert("crash");
+                    for (s, es) in files.iter_mut() {
+                        let keep = store.synced_len(&file_name(*s));
+                        es.retain(|e| e.end <= keep);
+                    }
+                    drop(std::mem::replace(&mut rot, WalRotator::new(ImgStore::new(), mfs).map_err(|e| e.to_string())?));
+                    store.simulate_crash();
+                    history.push("crash+restart".into());
+                } else {
+                    kinds.insert("restart");
+                    history.push("restart".into());
+                }
+                rot = WalRotator::new(store.clone(), mfs).map_err(|e| format!("step {}: WalRotator::new failed: {}", si, e))?;
+                active = None;
+                if truncated_then_restarted_then_appended == 1 {
+                    truncated_then_restarted_then_appended = 2;
+                }
+            }
+        }
+        // after every step: a fresh reader must see exactly the reference, file by file
+        evals += 1;
+        let got = recover(&store).map_err(|e| format!("after step {} ({}): {}", si, history.last().cloned().unwrap_or_default(), e))?;
+        let want: Vec<(&Vec<u8>, u64)> = files.values().flat_map(|es| es.iter().map(|e| (&e.data, e.stamp))).collect();
+        if got.len() != want.len() || got.iter().zip(want.iter()).any(|(g, w)| &g.0 != w.0 || g.1 != w.1) {
+            return Err(format!(
+                "after step {}: recovery returns stamps {:?} but the log holds {}\n  history: {}\n  files in the store: {:?}",
+                si,
+                got.iter().map(|g| g.1).collect::<Vec<_>>(),
+                show_ref(&files),
+                history.join(" | "),
+                store.names()
+            ));
+        }
+        let rep = store.replaced();
+        if !rep.is_empty() {
+            return Err(format!("after step {}: file name(s) {:?} were created again while the file existed\n  history: {}", si, rep, history.join(" | ")));
+        }
+    }
+    for k in &kinds {
+        ctx.label(&format!("step:{}", k));
+    }
+    if truncated_then_restarted_then_appended == 3 {
+        ctx.label("files_deleted->restart->new_file");
+    }
+    if kinds.len() >= 3 && files.len() + 1 >= 2 {
+        ctx.nontrivial(&(c.max_file_size, history));
+    }
+    ctx.add_evaluations(evals);
+    Ok(())
+}
+
+// ---------------------------------------------------------------------------------------
 // truncation requested through the WAL actor (WalActorHandle::truncate / TruncateUpTo)
 // ---------------------------------------------------------------------------------------
 
@@ -1334,6 +1545,7 @@ fn check_actor_truncate(c: &ActorCase, ctx: &mut CaseCtx<'_>) -> Result<(), Stri
         })
         .collect();
     let (barrier, barrier_bytes) = actor_delta(1000, 3, 0);
+    let (restart_w, restart_bytes) = actor_delta(1001, 5, 1);
     let mut ts: BTreeSet<u64> = BTreeSet::new();
     ts.insert(0);
     for &(_, s) in &c.writes {
@@ -1360,6 +1572,8 @@ fn check_actor_truncate(c: &ActorCase, ctx: &mut CaseCtx<'_>) -> Result<(), Stri
         let st = store.clone();
         let deltas2 = deltas.clone();
         let barrier2 = barrier.clone();
+        let restart2 = restart_w.clone();
+        let cfg2 = cfg.clone();
         // returns the files present right before the truncation request (the last one written
         // to is the actor's active file)
         let before: BTreeMap<String, Vec<u8>> = catch(move || {
@@ -1378,6 +1592,12 @@ fn check_actor_truncate(c: &ActorCase, ctx: &mut CaseCtx<'_>) -> Result<(), Stri
                 h.shutdown().await;
                 drop(h);
                 task.await.map_err(|e| format!("the WAL actor ended abnormally: {}", e))?;
+                // restart: a new actor over the same store, one more acknowledged write
+                let (h, task) = spawn_wal_actor(st.clone(), cfg2).map_err(|e| format!("spawn_wal_actor (restart): {}", e))?;
+                h.write_durable(restart2, 1).await.map_err(|e| format!("write after the restart failed: {}", e))?;
+                h.shutdown().await;
+                drop(h);
+                task.await.map_err(|e| format!("the WAL actor ended abnormally after the restart: {}", e))?;
                 Ok::<_, String>(before)
             })
         })
@@ -1424,8 +1644,18 @@ fn check_actor_truncate(c: &ActorCase, ctx: &mut CaseCtx<'_>) -> Result<(), Stri
         if !got.iter().any(|g| g.0 == barrier_bytes) {
             return Err(format!("{}: the write acknowledged after the truncation is not recovered", what));
         }
+        if !got.iter().any(|g| g.0 == restart_bytes) {
+            return Err(format!("{}: the write acknowledged after the restart is not recovered", what));
+        }
+        let rep = store.replaced();
+        if !rep.is_empty() {
+            return Err(format!(
+                "{}: after the restart the actor created {:?} although that file existed; files before the truncation: {:?}; files left by it: {:?}",
+                what, rep, layout, left
+            ));
+        }
         for g in &got {
-            if g.0 != barrier_bytes && !deltas.iter().any(|d| d.1 == g.0 && d.2 == g.1) {
+            if g.0 != barrier_bytes && g.0 != restart_bytes && !deltas.iter().any(|d| d.1 == g.0 && d.2 == g.1) {
                 return Err(format!("{}: recovery returns an entry that was never written (len={} stamp={})", what, g.0.len(), g.1));
             }
         }
@@ -1672,6 +1902,12 @@ fn main() {
         },
         check_entries_after,
     );
+
+    s.describe_check(
+        "lifecycle",
+        "3..10 generated steps over {append 1..5 entries, sync, truncate_before(T), restart, crash (drop unsynced bytes) + restart} on one store, with a harness-side reference of (file, stamp, bytes): after every step a fresh rotator recovers exactly the reference in file order; truncation deletes no file holding a stamp > T nor the active file; no existing file name is ever created again",
+    );
+    s.run_cases("lifecycle", s.scale(10_000, 400_000), life_case, check_life);
 
     s.describe_check(
         "actor_truncate",
